@@ -76,4 +76,17 @@ OutPrefixOk ==
 DoneComplete == phase = "done" => Len(out) = Cardinality(AllKeys(SrcTuple))
 \* test generation: the sources of a completed run and the output the model predicts
 EmitRun == phase = "done" => PrintT("MRUN " \o ToString(<<SrcTuple, [x \in 1..Len(out) |-> <<out[x].k, out[x].v>>]>>))
+-----------------------------------------------------------------------------
+(* liveness: every call of next consumes at least one entry of every source it popped, so the  *)
+(* number of entries still to visit strictly decreases and iteration ends after finitely many   *)
+(* calls (checked under weak fairness of the iterator's own steps: MCMerger_live.cfg)           *)
+RECURSIVE RemFrom(_)
+RemFrom(i) == IF i > NSrc THEN 0 ELSE (Len(srcs[i]) + 1 - head[i]) + RemFrom(i + 1)
+Remaining == RemFrom(1)
+Progress == [][(phase = "run" /\ phase' = "run") => Remaining' < Remaining]_mvars
+MLive == MSpec /\ WF_mvars(Seed \/ NextOut \/ Finish)
+Terminates == <>(phase = "done")
+\* once done, the iterator stays done and yields nothing more
+DoneStable == [][phase = "done" => (phase' = "done" /\ out' = out)]_mvars
+
 =============================================================================
